@@ -35,6 +35,18 @@ CLAIMED = {
    "Decided: half (a) of the property - every read-only operation it names (Warnings, String/GEDCOMString, Individuals, Families, NodeByPointer, Places, Sources, NodesWithTag(Path), all IndividualNode and FamilyNode read accessors, Similarity, SurroundingSimilarity, IndividualNodes.Compare incl. its goroutine bodies, CompareNodes, DeepCopy/Filter/Flatten into another document) may write no ABSTRACT field (tag, value, pointer, children, node lists, document links) of any pre-existing object: frame contracts checked against effect summaries of the real SSA, 60+ functions. Document.Warnings violated it and was repaired (fix: commit, canary kept). Not decided yet: half (b), coherence of the cached views after edits.",
    "Frame engine as for C07 (sound may-write analysis; refutations without input). Reads performed through reflection in package q are not covered. The induction over histories (each operation preserves 'abstract state unchanged') is the standard argument, not machine-checked.",
    TECH, "DESIGN.md section 8 C13"),
+ "C11": ("other",
+   "Decided: the data-race clause as a frame condition - every goroutine body of the matching pipeline (closures started with go or handed to util.WorkerPool in createJobs, createPointerJobs, createUniqueJobs, processJobs, collectResults, calculateWinners, getTotals) may write pre-existing memory only through channels, sync primitives, under a mutex, or on an object it received from a channel. The lazily filled caches (Document.families, IndividualNode.families/spouses/cachedUniqueIDs, FamilyNode.husband/wife, DateNode.parsedDateRange) violate it: 13 known findings, confirmed under go test -race by a canary; any other unsynchronised shared write is a new obligation and is reported. Not decided: that the result is a valid one-to-one matching (sequential contracts on calculateWinners/createUniqueJobs not written yet) and everything about schedules (delivery of every job exactly once, termination, independence of interleaving) - protocol-level, outside contract-based verification (DESIGN.md section 9).",
+   "Sufficient, not necessary, condition for race freedom; frame engine assumptions as for C07; ownership transfer through channels and the ordering argument for options.leftLen/rightLen are assumed (stated in the contract file).",
+   TECH, "DESIGN.md section 8 C11"),
+ "C18": ("other",
+   "Decided: the escaping clause as a ghost predicate html_safe checked modularly over every function of html, html/core, q/html_formatter.go and warnings.go (260+ functions): the predicate's preconditions and field invariants are derived from the code (which constructor parameters and struct fields reach the byte sink un-escaped: NewHTML, NewTag tag and attribute keys, class/style/colour parameters, ...), and every call site and field store is an obligation that fails when text coming out of package gedcom meets such a requirement. Attribute values, anchor names and table heads were unescaped sinks: repaired (fix: commit, canary kept). Not decided yet: well-nestedness of the literal templates; JavaScript context inside onclick.",
+   "Assumed: html.EscapeString and the package-level strings.Replacer/regexp sanitisers (read from their constant arguments) establish the predicate; string functions of external packages preserve it; string literals of the analysed packages are trusted markup; flow-insensitive may-analysis (refutations carry no input).",
+   TECH, "DESIGN.md section 8 C18"),
+ "C19": ("other",
+   "Decided: (1) confinement - every name given to core.NewFile satisfies the ghost predicate fname_safe (constants, sanitised keys, integers), checked modularly over html and html/core; the source page name was the raw pointer: repaired (fix: commit, canary kept). (2) no process-wide state - every package-level variable of html and html/core is init-only (one obligation per variable, callee effects from the frame engine), except the per-document surnames cache; the old shared surnames set was repaired (fix: commit, canary kept). Not decided: link closure over the bytes of all pages, identity across goroutine schedules and job counts, stop-instead-of-hang on writer failure (whole-site / schedule properties, DESIGN.md section 9); race frames of the publishing goroutines exist (html contract file, tag X19) but the whole-package effect summary is too slow and too coarse to register.",
+   "Ghost-predicate engine assumptions as for C18 (regexp sanitiser alnumOrDashRegexp / sourcePageRegexp read from their literal patterns); package-state check assumes globals are modified only through values loaded directly from them.",
+   TECH, "DESIGN.md section 8 C19"),
 }
 
 NOT_APPLICABLE = {pid: PENDING for pid in ["C%02d" % i for i in range(1, 21)] if pid not in CLAIMED}
